@@ -1,9 +1,96 @@
 import TaurexModel.Proto
+import TaurexModel.Binning
 
 namespace Taurex.Ops.C05
-open Taurex.Proto
+open Taurex.Proto Taurex.Binning
 
-/-- operations of the C05 model served by `driver_c05` (filled in by the C05 check) -/
-def ops : List Op := []
+/-- rows of one spectrum: centres, widths (or zeros), values, errors (or zeros) -/
+def mkRows (c w s e : List Float) : List (Row Float) :=
+  (List.range c.length).map (fun i =>
+    ({ c := c.getD i 0, w := w.getD i 0, s := s.getD i 0, e := e.getD i 0 } : Row Float))
+
+def mkTargets (c w : List Float) : List (TBin Float) :=
+  (List.range c.length).map (fun i => ({ c := c.getD i 0, w := w.getD i 0 } : TBin Float))
+
+/-- adjacent test of the "ordered bins" guard (adjacent suffices for a transitive relation) -/
+def orderedB : List (Row Float) → Bool
+  | r :: r' :: t => decide (r.lo ≤ r'.lo) && decide (r.hi ≤ r'.hi) && orderedB (r' :: t)
+  | _ => true
+
+/-- target width mode: `0` none, `1 w` scalar, `2` array -/
+def modeP : P (WidthMode Float) := do
+  let n ← nat
+  match n with
+  | 0 => pure WidthMode.none
+  | 1 => do
+    let w ← flt
+    pure (WidthMode.scalar w)
+  | _ => pure WidthMode.array
+
+/-- `c05.edges g` → `edges widths` (`compute_bin_edges`) -/
+def edgesOp (args : List String) : Option String :=
+  run (do
+    let g ← listOf flt
+    pure g) args >>= fun g =>
+  if g.length < 2 then none else
+    let (e, w) := computeBinEdges g
+    some (fList fF e ++ " " ++ fList fF w)
+
+/-- `c05.flux explicit nc nw specs errs mode tc tw`
+    → `grid widths binned(list per spectrum) errs(list per error array) ordered sumOverlap spec quad`
+    The real code: `FluxBinner(tc, tw).bindown(nc, spec, grid_width=nw|None, error=err|None)` -/
+def fluxOp (args : List String) : Option String :=
+  run (do
+    let explicit ← bool
+    let nc ← listOf flt
+    let nw ← listOf flt
+    let specs ← listOf (listOf flt)
+    let errs ← listOf (listOf flt)
+    let mode ← modeP
+    let tc ← listOf flt
+    let tw ← listOf flt
+    pure (explicit, nc, nw, specs, errs, mode, tc, tw)) args >>= fun (explicit, nc, nw, specs, errs, mode, tc, tw) =>
+  if nc.length < 1 then none
+  else if !explicit && nc.length < 2 then none
+  else if (match mode with | .none => decide (tc.length < 2) | _ => false) then none
+  else
+    let targets := targetBins mode (mkTargets tc tw)
+    let z : List Float := []
+    let binned := specs.map (fun s => fluxBindown explicit Row.s (mkRows nc nw s z) targets)
+    let berr := errs.map (fun e => fluxBindownErr explicit Row.e (mkRows nc nw z e) targets)
+    -- the specification evaluated on the same sorted native bins
+    let bins := nativeBins explicit (mkRows nc nw z z)
+    let sumOv := targets.map (fun t => sumL (bins.map (overlap t.lo t.hi)))
+    let spec := specs.map (fun s =>
+      let rows := nativeBins explicit (mkRows nc nw s z)
+      targets.map (fun t => overlapMeanSpec Row.s rows t.lo t.hi))
+    let quad := errs.map (fun e =>
+      let rows := nativeBins explicit (mkRows nc nw z e)
+      targets.map (fun t => quadErrSpec Row.e rows t.lo t.hi))
+    some (fList fF (targets.map TBin.c) ++ " " ++ fList fF (targets.map TBin.w) ++ " " ++
+      fList (fList fF) binned ++ " " ++ fList (fList fF) berr ++ " " ++ fB (orderedB bins) ++ " " ++
+      fList fF sumOv ++ " " ++ fList (fList fF) spec ++ " " ++ fList (fList fF) quad)
+
+/-- `c05.hist nd nc specs nb` → list per spectrum (`util.bindown`; `nd = 0` 1-D path, else N-D path) -/
+def histOp (args : List String) : Option String :=
+  run (do
+    let nd ← bool
+    let nc ← listOf flt
+    let specs ← listOf (listOf flt)
+    let nb ← listOf flt
+    pure (nd, nc, specs, nb)) args >>= fun (nd, nc, specs, nb) =>
+  if nb.length < 2 then none else
+    let z : List Float := []
+    some (fList (fList fF) (specs.map (fun s =>
+      if nd then histMeanN Row.s (mkRows nc z s z) nb else histMean1 Row.s (mkRows nc z s z) nb)))
+
+/-- `c05.native xs` → `xs` (`NativeBinner.bindown`) -/
+def nativeOp (args : List String) : Option String :=
+  run (do
+    let xs ← listOf flt
+    pure (fList fF (nativeBindown xs))) args
+
+def ops : List Op :=
+  [("c05.edges", edgesOp), ("c05.flux", fluxOp), ("c05.hist", histOp), ("c05.native", nativeOp)]
 
 end Taurex.Ops.C05
